@@ -55,6 +55,18 @@ def gen_one(rng):
             items.append(dict(error=900 + i))
     if rng.random() < 0.1:
         items.insert(0, dict(error=899))
+    directed = rng.random() < 0.1
+    if directed:
+        # a delayed retry waits while the (lazy) parser delivers a later feature with a serial and a concurrent scenario
+        def sc(i, **kw):
+            d = dict(id=i, rule=None, serial=False, serial_own=False, retry=None, fails=0, steps=1)
+            d.update(kw)
+            return d
+        items = [dict(id=10, empty_rules=0, serial_feature=False, serial_rules=[],
+                      scenarios=[sc(101, retry=[rng.choice([1, 2]), rng.choice([30, 40])], fails=1), sc(102, steps=rng.choice([1, 2])),
+                                 sc(103)][:rng.choice([2, 3])]),
+                 dict(id=11, empty_rules=0, serial_feature=False, serial_rules=[],
+                      scenarios=[sc(111, serial=True, serial_own=True), sc(112), sc(113)][:rng.choice([2, 3])])]
     case = dict(items=items,
                 conc_cli=rng.choice([None, None, None, 1, 2, 3]),
                 conc_builder=rng.choice(["default", None, 1, 2, 2, 4]),
@@ -62,6 +74,9 @@ def gen_one(rng):
                 eager=rng.random() < 0.4, seed=rng.randrange(1, 1 << 30),
                 p_parser=rng.choice([10, 30, 60]), p_tick=rng.choice([0, 10, 30]), p_multi=rng.choice([0, 0, 30, 70]),
                 max_rounds=rng.choice([60, 200, 400]))
+    if directed:
+        case.update(eager=False, p_parser=10, p_tick=rng.choice([10, 30]), ff_cli=False, ff_builder=False,
+                    conc_cli=None, conc_builder=rng.choice([2, 2, 4]))
     # an after hook that panics in the first `afails` attempts of some scenarios (a failed after hook alone makes
     # the attempt a failed one: it is retried, and it trips fail-fast when final)
     case["after_hook"] = rng.random() < 0.35
@@ -163,6 +178,10 @@ def term(case, res):
     cli = "None" if case["conc_cli"] is None else "(Some %s)" % cnat(case["conc_cli"])
     hang = bool(res.get("hang"))
     hist = res.get("history", [])
+    if not res.get("terminated") and len(hist) > 2500:
+        # a run that did not end (the harness gave up after its round limit): the history is a prefix with thousands of
+        # idle turns; a prefix of it is enough to judge (and all the Coq evaluator can take)
+        hist = hist[:2500]
     return "(mk_sdcase %s %s %s %s %s %s %s %s)" % (
         cli, builder, cbool(case["ff_cli"]), cbool(case["ff_builder"]), clist(case["items"], c_item),
         clist(hist, c_rec), cbool(bool(res.get("terminated"))), cbool(hang))
